@@ -144,3 +144,13 @@ Proof.
   - apply Planar3DLogicals.planar3d_logical_pairing; apply BinInt.Z.le_trans with (m := 2%Z); try assumption; discriminate.
 Qed.
 Print Assumptions C01_planar3d_logicals_for_all_sizes.
+
+(** Layer P, XCubeCode, every size L_x, L_y, L_z >= 2: every cube generator (Z-type, 12 edges) and every vertex
+    cruciform generator (X-type, axis 0, 1 or 2) share an even number of qubits, hence commute. *)
+From PQ Require XCube.
+Theorem C01_xcube_cube_cruciform_commute_for_all_sizes :
+  forall (Lx Ly Lz axis : BinNums.Z) v c, (2 <= Lx)%Z -> (2 <= Ly)%Z -> (2 <= Lz)%Z ->
+  In v (XCube.vertices Lx Ly Lz) -> In c (XCube.cubes Lx Ly Lz) -> (0 <= axis <= 2)%Z ->
+  Toric3D.overlap3 (XCube.face_support Lx Ly Lz axis v) (XCube.cube_support Lx Ly Lz c) = false.
+Proof. exact XCube.xcube_cube_face_commute. Qed.
+Print Assumptions C01_xcube_cube_cruciform_commute_for_all_sizes.
